@@ -5,29 +5,28 @@ From DV Require Import Base.Corr Base.Life Model.OpResultModel.
 Import ListNotations.
 Local Open Scope Z_scope.
 
-(* what the harness prints after each operation: the variables and (live, constructions, destructor calls, errors)
-   of the payload ledger *)
-Definition obs := (vars * (Z * Z * Z * Z))%type.
+(* what is compared after each operation: the variables and (live objects, misuses so far) of the payload ledger
+   (the full counters are compared once, at the end: parsing large terms is what limits the case count) *)
+Definition obs := (vars * (Z * Z))%type.
 
 Definition var_eqb (a b : var) : bool := opt_eqb (opt_eqb Z.eqb) a b.
 Definition vars_eqb := list_eqb var_eqb.
-Definition quad_eqb (a b : Z * Z * Z * Z) : bool :=
-  let '(a1, a2, a3, a4) := a in let '(b1, b2, b3, b4) := b in (a1 =? b1) && (a2 =? b2) && (a3 =? b3) && (a4 =? b4).
-Definition obs_eqb (a b : obs) : bool := vars_eqb (fst a) (fst b) && quad_eqb (snd a) (snd b).
+Definition obs_eqb (a b : obs) : bool := vars_eqb (fst a) (fst b) && zpair_eqb (snd a) (snd b).
 
 Definition obs_of (s : state) : obs :=
-  let g := st_led s in (st_vars s, (live_count g, n_ctor g, n_dtor g, Z.of_nat (length (l_errs g)))).
+  let g := st_led s in (st_vars s, (live_count g, Z.of_nat (length (l_errs g)))).
 
 (* lifetime part of the property at one observation point: no misuse so far, and the objects that still need a
    destructor are exactly the contents of the engaged variables *)
 Definition life_ok (o : obs) : bool :=
-  let '(vs, (live, _, _, errs)) := o in (errs =? 0) && (live =? engaged_count vs).
+  let '(vs, (live, errs)) := o in (errs =? 0) && (live =? engaged_count vs).
 
-(* at the end of a complete program (all variables destroyed): everything constructed was destroyed *)
-Definition end_ok (o : obs) : bool :=
-  let '(vs, (live, c, d, errs)) := o in negb (all_gone vs) || ((live =? 0) && (c =? d) && (errs =? 0)).
-
-Definition last_obs (l : list obs) : obs := last l ([], (0, 0, 0, 0)).
+(* at the end of a complete program (all variables destroyed): everything constructed was destroyed.
+   fin = the numbers of life::Ledger::line(): cv cc cm ac am d live moved e0..e4 misaligned *)
+Definition end_ok (vs : vars) (fin : list Z) : bool :=
+  negb (all_gone vs) ||
+  ((nth 6 fin 1 =? 0) && (nth 0 fin 0 + nth 1 fin 0 + nth 2 fin 0 =? nth 5 fin (-1)) &&
+   forallb (Z.eqb 0) (firstn 5 (skipn 8 fin))).
 
 (* one case: number of variables, operations, implementation trace, final payload ledger numbers of OpResult
    (ledger_obs order, then misaligned), has_value/operator bool disagreement flag, the same for std::optional.
@@ -41,13 +40,12 @@ Definition judge_c40 (c : nat * list op * list obs * list Z * bool * list vars *
   match trace (init nv) ops, spec_trace (repeat None nv) ops with
   | Some mt, Some st =>
       let refines := list_eqb vars_rel (map fst impl) st && negb flag in
-      let life := forallb life_ok impl && end_ok (last_obs impl) && (nth 13 impl_final 1 =? 0) in
+      let life := forallb life_ok impl && end_ok (last (map fst impl) []) impl_final && (nth 13 impl_final 1 =? 0) in
       let final_model := match rev mt with [] => ledger0 | s :: _ => st_led s end in
       let agrees := list_eqb obs_eqb (map obs_of mt) impl && zlist_eqb (ledger_obs final_model ++ [0]) impl_final in
       (* the reference: std::optional behaves as the specification, and its own payload is balanced *)
       let opt_ok := list_eqb vars_eqb st optl &&
-                    (negb (all_gone (last optl [])) ||
-                     ((nth 6 opt_final 1 =? 0) && (forallb (Z.eqb 0) (firstn 5 (skipn 8 opt_final))))) in
+                    end_ok (last optl []) opt_final in
       if negb refines then 2
       else if negb life then (if has_engaged_move (init nv) ops then 4 else 2)
       else if agrees && opt_ok then 0 else 1
@@ -57,3 +55,41 @@ Definition judge_c40 (c : nat * list op * list obs * list Z * bool * list vars *
 (* is the case inside the finding's domain?  (reported as coverage) *)
 Definition in_domain_c40 (c : nat * list op) : Z :=
   if has_engaged_move (init (fst c)) (snd c) then 1 else 0.
+
+(* ---- flat encoding used by props/C40.py (big nested terms are slow to parse): everything is a list of numbers.
+   variable: -3 = no object, -2 = disengaged, otherwise the tag;  operation: (code, i, a) with code
+   0 ODefault, 1 OValueMove, 2 OValueCopy, 3 OCopy, 4 OMove, 5 OCopyAssign, 6 OMoveAssign, 7 OEmplace, 8 OPoke, 9 ODestroy;
+   observation: nv variables then live, errors *)
+Definition dec_var (z : Z) : var := if z =? -3 then None else if z =? -2 then Some None else Some (Some z).
+
+Definition dec_op (k i a : Z) : op :=
+  let i' := Z.to_nat i in let j := Z.to_nat a in
+  if k =? 0 then ODefault i' else if k =? 1 then OValueMove i' a else if k =? 2 then OValueCopy i' a
+  else if k =? 3 then OCopy i' j else if k =? 4 then OMove i' j else if k =? 5 then OCopyAssign i' j
+  else if k =? 6 then OMoveAssign i' j else if k =? 7 then OEmplace i' a else if k =? 8 then OPoke i' a else ODestroy i'.
+
+Fixpoint dec_ops (l : list Z) : list op :=
+  match l with
+  | k :: i :: a :: r => dec_op k i a :: dec_ops r
+  | _ => []
+  end.
+
+Fixpoint dec_obs (fuel nv : nat) (l : list Z) : list obs :=
+  match fuel, l with
+  | S f, _ :: _ =>
+      let vs := map dec_var (firstn nv l) in
+      let q := skipn nv l in
+      (vs, (nth 0 q 0, nth 1 q 0)) :: dec_obs f nv (skipn 2 q)
+  | _, _ => []
+  end.
+
+Fixpoint dec_vars (fuel nv : nat) (l : list Z) : list vars :=
+  match fuel, l with
+  | S f, _ :: _ => map dec_var (firstn nv l) :: dec_vars f nv (skipn nv l)
+  | _, _ => []
+  end.
+
+Definition judge_c40_flat (c : Z * list Z * list Z * list Z * Z * list Z * list Z) : Z :=
+  let '(nv, ops, impl, impl_final, flag, optl, opt_final) := c in
+  let n := Z.to_nat nv in
+  judge_c40 (n, dec_ops ops, dec_obs (length impl) n impl, impl_final, negb (flag =? 0), dec_vars (length optl) n optl, opt_final).
